@@ -363,6 +363,17 @@ func collectMetrics(metrics map[string]func(float64, ...string), mctx metricsCon
 		prefixes = pick[*ndp.PrefixInformation](mctx.Advertisement.Options)
 		rdnss = pick[*ndp.RecursiveDNSServer](mctx.Advertisement.Options)
 		routes = pick[*ndp.RouteInformation](mctx.Advertisement.Options)
+
+		// An advertisement may carry the same prefix, route, server list or
+		// search list more than once: a wildcard stanza can expand to something
+		// which is also configured statically, and identical stanzas are
+		// accepted. A timeseries can only be reported once per scrape or the
+		// entire scrape fails, so report the last of them: the one hosts end
+		// up applying.
+		dnssl = lastByLabel(dnssl, func(d *ndp.DNSSearchList) string { return strings.Join(d.DomainNames, ", ") })
+		prefixes = lastByLabel(prefixes, prefixStr)
+		rdnss = lastByLabel(rdnss, func(r *ndp.RecursiveDNSServer) string { return stringerStr(r.Servers) })
+		routes = lastByLabel(routes, routeStr)
 	}
 
 	for m, c := range metrics {
@@ -415,6 +426,24 @@ func collectMetrics(metrics map[string]func(float64, ...string), mctx metricsCon
 			panicf("corerad: metrics collection for %q is not handled", m)
 		}
 	}
+}
+
+// lastByLabel returns the options of opts whose label is not carried by a later
+// option, in their original order.
+func lastByLabel[T any](opts []T, label func(T) string) []T {
+	last := make(map[string]int, len(opts))
+	for i, o := range opts {
+		last[label(o)] = i
+	}
+
+	out := make([]T, 0, len(last))
+	for i, o := range opts {
+		if last[label(o)] == i {
+			out = append(out, o)
+		}
+	}
+
+	return out
 }
 
 // Series produces a set of output timeseries from the Metrics, assuming the
